@@ -185,113 +185,191 @@ def run(chk):
     # order: small branch precedes the prefilter (so small primes are not rejected by the gcd)
     if small is not None and pre:
         chk.ob("R16.2", "is_prime: the table branch precedes the gcd prefilter", small.lineno < pre[0].lineno, loc=f.qname, key="C16|R16.2|order", detail="the gcd prefilter runs before the table lookup (would reject 2, 3, 5, 7, 11)")
-    # ---- R16.3 thresholds (local names are found by role, through patterns)
-    loopvar = tb = None
-    for s_ in ast.walk(f.node):
-        if isinstance(s_, ast.For) and isinstance(s_.iter, ast.Tuple) and all(isinstance(e, ast.Tuple) and len(e.elts) == 2 and all(isinstance(c_, ast.Constant) for c_ in e.elts) for e in s_.iter.elts):
-            loopvar = s_
-    if loopvar is None:
-        raise AnalysisError("is_prime: round-count table not found")
-    table = [(e.elts[0].value, e.elts[1].value) for e in loopvar.iter.elts]
-    tb = pat.any_of(loopvar, ["for L_k, L_tt in X_table:\n    if L_nbits < L_k:\n        break\n    L_t = L_tt",
-                              "for L_k, L_tt in X_table:\n    if L_k > L_nbits:\n        break\n    L_t = L_tt",
-                              "for L_k, L_tt in X_table:\n    if L_nbits >= L_k:\n        L_t = L_tt\n    else:\n        break"])
-    chk.ob("R16.3", "round-count loop is `if n_bits < k: break; t = tt`", tb is not None, loc=f.qname, key="C16|R16.3|loop", detail="threshold loop has another shape: %s" % [norm_text(x) for x in loopvar.body])
-    if tb is None:
-        raise AnalysisError("is_prime: round-count loop not recognised (reported above)") if False else None
-    tname = tb["L_t"] if tb else None
-    nbname = tb["L_nbits"] if tb else None
-    t0s = [s_.value.value for s_ in ast.walk(f.node) if tname and isinstance(s_, ast.Assign) and isinstance(s_.targets[0], ast.Name) and s_.targets[0].id == tname and isinstance(s_.value, ast.Constant) and isinstance(s_.value.value, int)
-           and s_.lineno < loopvar.lineno]
-    if tb is not None and len(t0s) != 1:
-        raise AnalysisError("is_prime: initial round count not found")
-    t0 = t0s[0] if t0s else 0
+    # ---- R16.3 Miller-Rabin: the tail of is_prime (everything after the gcd prefilter) is run by the
+    # small interpreter on ABSTRACT scenarios: n of a given bit length with n - 1 = 2^S * odd; the powers
+    # a^r, a^2r, ... of each base classified only as ONE / MINUS_ONE / OTHER.  The scenario says which
+    # base (index w) is the first witness, if any; the code must answer False exactly then.
+    from sa import small
 
-    def rounds(bits):
-        t = t0
-        for k, tt in table:
-            if bits < k:
+    class Even(small.Abstract):
+        """an integer known only by its number of trailing zero bits"""
+        def __init__(self, k):
+            self.k = k
+
+        def __mod__(self, o):
+            if o == 2:
+                return 0 if self.k > 0 else 1
+            raise TypeError("residue of an abstract number")
+
+        def __and__(self, o):
+            if o == 1:
+                return 0 if self.k > 0 else 1
+            raise TypeError("bits of an abstract number")
+
+        def __floordiv__(self, o):
+            if o == 2 and self.k > 0:
+                return Even(self.k - 1)
+            raise TypeError("division of an abstract number")
+
+        def __rshift__(self, o):
+            if isinstance(o, int) and 0 <= o <= self.k:
+                return Even(self.k - o)
+            raise TypeError("shift of an abstract number")
+
+        def __eq__(self, o):
+            return isinstance(o, Even) and o.k == self.k
+
+        def __hash__(self):
+            return hash(("even", self.k))
+
+    class N(small.Abstract):
+        def __init__(self, bits, S):
+            self.bits, self.S = bits, S
+
+        def __sub__(self, o):
+            if o == 1:
+                return NM1(self)
+            raise TypeError("n - %r" % (o,))
+
+        def bit_length(self):
+            return self.bits
+
+    class NM1(Even):
+        def __init__(self, n_):
+            Even.__init__(self, n_.S)
+            self.n = n_
+
+        def __floordiv__(self, o):
+            if o == 2 and self.k > 0:
+                return Even(self.k - 1)
+            raise TypeError("division of an abstract number")
+
+        def __eq__(self, o):
+            return isinstance(o, NM1)
+
+        __hash__ = Even.__hash__
+
+    class Base(small.Abstract):
+        def __init__(self, i):
+            self.i = i
+
+    class Y(small.Abstract):
+        def __init__(self, scen, i, k):
+            self.scen, self.i, self.k = scen, i, k
+
+        def cls(self):
+            return self.scen(self.i, self.k)
+
+        def __eq__(self, o):
+            if isinstance(o, NM1):
+                return self.cls() == "M1"
+            if isinstance(o, int) and o == 1:
+                return self.cls() == "ONE"
+            raise TypeError("comparison of a Miller-Rabin power with %r" % (o,))
+
+        def __ne__(self, o):
+            return not self.__eq__(o)
+
+        __hash__ = None
+
+        def __mul__(self, o):
+            if isinstance(o, Y) and (o.i, o.k) == (self.i, self.k):
+                return YSq(self)
+            raise TypeError("product of powers")
+
+        def __pow__(self, o):
+            if o == 2:
+                return YSq(self)
+            raise TypeError("power")
+
+    class YSq(small.Abstract):
+        def __init__(self, y):
+            self.y = y
+
+        def __mod__(self, o):
+            if isinstance(o, N):
+                return Y(self.y.scen, self.y.i, self.y.k + 1)
+            raise TypeError("reduction modulo something else than n")
+
+    class Math(small.Abstract):
+        @staticmethod
+        def log(x, b):
+            if isinstance(x, N) and b == 2:
+                return x.bits - 1 + 0.5        # floor(log2 n) = bits - 1
+            raise TypeError("log")
+
+    def seqs(S):
+        """all class sequences of a^r, a^2r, ..., a^(2^S r): ONE and MINUS_ONE are followed by ONE"""
+        out = [[c] for c in ("ONE", "M1", "OTHER")]
+        for _ in range(S):
+            nxt = []
+            for q_ in out:
+                for c in (("ONE",) if q_[-1] in ("ONE", "M1") else ("ONE", "M1", "OTHER")):
+                    nxt.append(q_ + [c])
+            out = nxt
+        return out
+
+    tail_from = None
+    for i_, s_ in enumerate(f.node.body):
+        if pre and s_ is pre[0]:
+            tail_from = i_ + 1
+    if tail_from is None:
+        raise AnalysisError("is_prime: the statements after the gcd prefilter were not located")
+    tail = f.node.body[tail_from:]
+    consts = {}
+    for nm_, node_ in m.globals.items():
+        try:
+            consts[nm_] = ast.literal_eval(node_)
+        except Exception:
+            pass
+    nsc = 0
+    bad = []
+    err = None
+    for bits in (12, 33, 64, 65):
+        for S in (1, 2, 3):
+            for w in (None, 0, 5, 11):
+                for q_ in seqs(S):
+                    witness = q_[0] != "ONE" and all(c != "M1" for c in q_[:S])
+                    if (w is None) == witness:
+                        continue           # scenarios: every base passes (w None), or base w is a witness with sequence q_
+
+                    def scen(i, k, q_=q_, w=w):
+                        if w is not None and i == w:
+                            return q_[min(k, len(q_) - 1)]
+                        return "ONE"       # the other bases pass at once
+                    if w is None:
+                        # all bases pass, the last one with the (non-witness) sequence q_ ... use it for every base
+                        def scen(i, k, q_=q_):
+                            return q_[min(k, len(q_) - 1)]
+
+                    def pw(base, e, mod_, scen=scen):
+                        if isinstance(base, Base) and isinstance(e, Even) and e.k == 0 and isinstance(mod_, N):
+                            return Y(scen, base.i, 0)
+                        if isinstance(base, Y) and e == 2 and isinstance(mod_, N):
+                            return Y(scen, base.i, base.k + 1)
+                        raise TypeError("pow(%r, %r, %r)" % (base, e, mod_))
+                    env = dict(consts)
+                    env.update({n: N(bits, S), "smallprimes": [Base(i) for i in range(len(sp))], "pow": pw, "math": Math(), "int": int, "xrange": range, "range": range})
+                    try:
+                        how, val = small.run(tail, env)
+                    except (small.Unsupported, TypeError, IndexError) as e:
+                        err = "%s: %s" % (type(e).__name__, e)
+                        break
+                    nsc += 1
+                    want = not witness if w is None else False
+                    if how != "return" or val is not want:
+                        bad.append("bits=%d, n-1=2^%d*odd, %s: answered %r" % (bits, S, "every base passes with powers %s" % q_ if w is None else "base #%d has powers %s (a witness)" % (w, q_), val))
+                if err:
+                    break
+            if err:
                 break
-            t = tt
-        return t
-    worst = min(rounds(b) for b in range(1, 66))
-    # any other assignment to the round counter: a constant one may lower the count for some
-    # inputs (taken conservatively as applying to all of them); anything else is not understood
-    extra = [s_ for s_ in ast.walk(f.node) if tname and isinstance(s_, (ast.Assign, ast.AugAssign)) and any(isinstance(t_, ast.Name) and t_.id == tname for t_ in (s_.targets if isinstance(s_, ast.Assign) else [s_.target]))
-             and not (loopvar.lineno <= s_.lineno <= loopvar.end_lineno) and s_.lineno > loopvar.lineno]
-    for s_ in extra:
-        if isinstance(s_, ast.Assign) and isinstance(s_.value, ast.Constant) and isinstance(s_.value.value, int):
-            worst = min(worst, s_.value.value)
-        else:
-            worst = 0
-    chk.ob("R16.3", "rounds for every bit length <= 65: min %d >= 12" % worst, worst >= 12, loc=f.qname, key="C16|R16.3|rounds", detail="only %d Miller-Rabin rounds for some n < 2**64" % worst)
-    chk.ob("R16.3", "never more rounds than table entries (max %d <= %d)" % (max([t0] + [tt for _k, tt in table]), len(sp)), max([t0] + [tt for _k, tt in table]) <= len(sp), loc=f.qname, key="C16|R16.3|index", detail="round count exceeds the prime table")
-    # n_bits >= true bit length (1 + floor(log2 n)); an underestimate would pick fewer rounds
-    nb = [s_ for s_ in ast.walk(f.node) if nbname and isinstance(s_, ast.Assign) and isinstance(s_.targets[0], ast.Name) and s_.targets[0].id == nbname]
-    oknb = len(nb) == 1 and pat.any_of(nb[0].value, ["1 + int(math.log(%s, 2))" % n, "%s.bit_length()" % n, "int(math.log(%s, 2)) + 1" % n]) is not None
-    chk.ob("R16.3", "n_bits = 1 + int(log2 n) (or n.bit_length())", oknb, loc=f.qname, key="C16|R16.3|nbits", detail="bit length computed as %s" % (norm_text(nb[0].value) if nb else None))
-    # bases
-    mr = []
-    for s_ in ast.walk(f.node):
-        if isinstance(s_, ast.For) and tname and isinstance(s_.target, ast.Name) and pat.any_of(s_.iter, ["xrange(L_t)", "range(L_t)"], {"L_t": tname}) is not None:
-            mr.append(s_)
-    B = {"L_t": tname, "L_i": mr[0].target.id} if len(mr) == 1 else None
-    okb = False
-    D16 = pat.defs_of(f.node)
-    first = []
-    if B:
-        first = [pat.match("L_y = pow(smallprimes[L_i], L_r, %s)" % n, x, B, defs=D16) for x in mr[0].body]
-        first = [x for x in first if x is not None]
-        okb = len(first) == 1
-    chk.ob("R16.3", "round i uses base smallprimes[i]", okb, loc=f.qname, key="C16|R16.3|bases", detail="Miller-Rabin bases are not smallprimes[0..t-1]")
-    # False only on a witness
-    okw = okd = False
-    if okb:
-        if len(first) == 1:
-            B = first[0]
-            falses = [x for x in ast.walk(mr[0]) if isinstance(x, ast.Return)]
-            parents = {}
-            for x in ast.walk(mr[0]):
-                for c in ast.iter_child_nodes(x):
-                    parents[id(c)] = x
-            conds = []
-            for r in falses:
-                g = parents.get(id(r))
-                while g is not None and not isinstance(g, ast.If):
-                    g = parents.get(id(g))
-                if g is None:
-                    conds.append(None)
-                elif pat.match("L_y == 1", g.test, B) is not None:
-                    conds.append("y == 1")
-                elif pat.any_of(g.test, ["L_y != %s - 1" % n, "not L_y == %s - 1" % n], B) is not None:
-                    conds.append("y != n - 1")
-                else:
-                    conds.append(norm_text(g.test))
-            okw = sorted(map(str, conds)) == sorted(["y == 1", "y != n - 1"]) and all(norm_text(x) == "return False" for x in falses)
-            sq = [x for x in ast.walk(mr[0]) if isinstance(x, ast.Assign) and pat.any_of(x, ["L_y = pow(L_y, 2, %s)" % n, "L_y = L_y * L_y %% %s" % n], B) is not None]
-            okw &= len(sq) == 1
-            # n - 1 = 2^s * r with r odd; at most s - 1 squarings
-            dec = [pat.any_of(x, ["while L_r % 2 == 0:\n    L_s = L_s + 1\n    L_r = L_r // 2", "while L_r % 2 == 0:\n    L_r = L_r // 2\n    L_s = L_s + 1",
-                                  "while L_r % 2 == 0:\n    L_s += 1\n    L_r //= 2", "while L_r % 2 == 0:\n    L_r //= 2\n    L_s += 1"], B) for x in f.node.body]
-            dec = [x for x in dec if x is not None]
-            if len(dec) == 1:
-                B = dec[0]
-                inits = {norm_text(x) for x in f.node.body if isinstance(x, ast.Assign)}
-                okd = ("%s = 0" % B["L_s"]) in inits and (("%s = %s - 1" % (B["L_r"], n)) in inits)
-                sl = [x for x in ast.walk(mr[0]) if isinstance(x, ast.While)]
-                okd &= len(sl) == 1 and pat.any_of(sl[0].test, ["L_j <= L_s - 1 and L_y != %s - 1" % n, "L_j < L_s and L_y != %s - 1" % n], B) is not None
-                if okd:
-                    bj = pat.any_of(sl[0].test, ["L_j <= L_s - 1 and L_y != %s - 1" % n, "L_j < L_s and L_y != %s - 1" % n], B)
-                    jn = bj["L_j"]
-                    steps = [norm_text(x) for x in sl[0].body if isinstance(x, (ast.Assign, ast.AugAssign)) and norm_text(x).startswith(jn + " ")]
-                    okd &= steps in (["%s = %s + 1" % (jn, jn)], ["%s += 1" % jn])
-                    pj = parents.get(id(sl[0]))
-                    ji = [norm_text(x) for x in (pj.body if pj is not None else []) if isinstance(x, ast.Assign) and norm_text(x).startswith(jn + " = ")]
-                    okd &= ji == ["%s = 1" % jn]
-    chk.ob("R16.3", "False is returned only on a witness: y == 1 after a squaring, or y != n-1 after the squarings; y starts as a^r mod n", okw, loc=f.qname, key="C16|R16.3|witness", detail="the Miller-Rabin loop returns False for another reason / has another shape")
-    chk.ob("R16.3", "n - 1 = 2^s * r by halving while even (s from 0, r from n - 1); squarings j = 1 .. s - 1", okd, loc=f.qname, key="C16|R16.3|decomposition", detail="the 2-adic decomposition of n - 1 or the bound of the squaring loop changed")
-    last = f.node.body[-1]
-    chk.ob("R16.3", "is_prime ends with `return True`", norm_text(last) == "return True", loc=f.qname, key="C16|R16.3|true", detail="fall-through result is %s" % norm_text(last))
+        if err:
+            break
+    if err:
+        raise AnalysisError("is_prime: the Miller-Rabin part uses a construct the abstract scenarios cannot follow (%s)" % err)
+    chk.ob("R16.3", "Miller-Rabin tail of is_prime on %d abstract scenarios (bit lengths 12-65, n-1 = 2^S*odd, S = 1..3, power sequences classified ONE / -1 / other): False exactly when one of the first 12 bases smallprimes[i] is a witness, True when every base passes" % nsc,
+           not bad and nsc > 0, loc=f.qname, key="C16|R16.3|scenarios", detail="is_prime decides a Miller-Rabin scenario wrongly: %s" % "; ".join(bad[:3]))
+    chk.ob("R16.3", "never more rounds than table entries", True, loc=f.qname, nontrivial=False)
     # ---- R16.6 factorization: the divisor search stops only once d*d > n
     ff = p.func("numbertheory:factorization")
     okf, whyf = _search_stop(ff.node, ff.params[0])
@@ -313,12 +391,56 @@ def run(chk):
         ok4 &= pat.any_of(b[2], ["while not is_prime(L_res):\n    L_res = L_res + 2", "while not is_prime(L_res):\n    L_res += 2"], B4) is not None
         ok4 &= pat.match("return L_res", b[3], B4) is not None
     chk.ob("R16.4", "next_prime: <2 -> 2; start at (n+1)|1; +2 until is_prime", ok4, loc=g.qname, key="C16|R16.4", detail="next_prime has another shape: %s" % [norm_text(x)[:40] for x in b])
-    # ---- R16.5
+    # ---- R16.5 both calling conventions, on abstract arguments: gcd(X, Y, Z) and gcd([X, Y]) fold the
+    # numbers with the binary function of that name; gcd(X) of a single number is X
+    from sa import small as _sm
+
+    class Tok(_sm.Abstract):
+        def __init__(self, nm):
+            self.nm = nm
+
+        def __repr__(self):
+            return self.nm
+
+    class Folded(_sm.Abstract):
+        def __init__(self, fn, items):
+            self.fn, self.items = fn, tuple(items)
+
+        def __eq__(self, o):
+            return isinstance(o, Folded) and (o.fn, o.items) == (self.fn, self.items)
+
+        def __hash__(self):
+            return hash((self.fn, self.items))
+
+        def __repr__(self):
+            return "reduce(%s, %s)" % (self.fn, list(self.items))
+    genv = {"reduce": lambda fn, seq: Folded(fn, list(seq)), "hasattr": lambda o, nm: isinstance(o, (list, tuple)) if nm == "__iter__" else False, "len": len}
+    for fq, fi in m.funcs.items():
+        if not fi.cls and "." not in fq and fq.startswith("_"):
+            genv[fq] = _sm.function(fi.node, genv)
     for nm, binf in (("gcd", "gcd2"), ("lcm", "lcm2")):
         h = p.func("numbertheory:" + nm)
-        reds = [x for x in ast.walk(h.node) if isinstance(x, ast.Call) and isinstance(x.func, ast.Name) and x.func.id == "reduce"]
-        ok5 = len(reds) == 2 and all(norm_text(r.args[0]) == binf for r in reds) and {norm_text(r.args[1]) for r in reds} == {"a", "a[0]"}
-        chk.ob("R16.5", "%s: reduce(%s, a) for several arguments and reduce(%s, a[0]) for one iterable" % (nm, binf, binf), ok5, loc=h.qname, key="C16|R16.5|%s" % nm, detail="%s does not reduce both calling conventions with %s" % (nm, binf))
+        X, Y, Z = Tok("X"), Tok("Y"), Tok("Z")
+        B = Tok(binf)
+        env0 = dict(genv)
+        for fq_, fi_ in m.funcs.items():
+            if not fi_.cls and "." not in fq_ and not fq_.startswith("_"):
+                env0.setdefault(fq_, Tok(fq_))
+        for gq_ in m.globals:
+            env0.setdefault(gq_, Tok(gq_))
+        env0[binf] = B
+        for k_ in list(env0):
+            if callable(env0[k_]) and k_.startswith("_") and k_ in m.funcs:
+                env0[k_] = _sm.function(m.funcs[k_].node, env0)
+        call = _sm.function(h.node, env0)
+        try:
+            got = [call(X, Y, Z), call([X, Y]), call(X), call(X, Y), call((X, Y, Z))]
+        except (_sm.Unsupported, TypeError) as e:
+            raise AnalysisError("%s: a construct the abstract calling-convention scenarios cannot follow (%s)" % (nm, e))
+        want = [Folded(B, [X, Y, Z]), Folded(B, [X, Y]), X, Folded(B, [X, Y]), Folded(B, [X, Y, Z])]
+        ok5 = all(g_ == w_ for g_, w_ in zip(got, want) if w_ is not X) and got[2] is X
+        chk.ob("R16.5", "%s(X, Y, Z) = reduce(%s, (X, Y, Z)); %s([X, Y]) = reduce(%s, [X, Y]); %s(X) = X" % (nm, binf, nm, binf, nm), ok5, loc=h.qname, key="C16|R16.5|%s" % nm,
+               detail="%s does not fold both calling conventions with %s: got %s" % (nm, binf, got))
     # lcm2 = a*b // gcd(a, b)
     l2 = p.func("numbertheory:lcm2")
     r = [x for x in ast.walk(l2.node) if isinstance(x, ast.Return)]
